@@ -2,9 +2,9 @@ package eng
 
 import (
 	"fmt"
-	"os"
 	"math/big"
 	"math/rand"
+	"os"
 	"sort"
 	"strings"
 	"time"
@@ -16,11 +16,11 @@ import (
 	"github.com/ethereum/go-ethereum/common"
 
 	assetstypes "github.com/ExocoreNetwork/exocore/x/assets/types"
+	avstypes "github.com/ExocoreNetwork/exocore/x/avs/types"
 	delegationtypes "github.com/ExocoreNetwork/exocore/x/delegation/types"
 	dogfoodtypes "github.com/ExocoreNetwork/exocore/x/dogfood/types"
 	exominttypes "github.com/ExocoreNetwork/exocore/x/exomint/types"
 	feedisttypes "github.com/ExocoreNetwork/exocore/x/feedistribution/types"
-	avstypes "github.com/ExocoreNetwork/exocore/x/avs/types"
 	operatortypes "github.com/ExocoreNetwork/exocore/x/operator/types"
 	oraclekeeper "github.com/ExocoreNetwork/exocore/x/oracle/keeper"
 	oracletypes "github.com/ExocoreNetwork/exocore/x/oracle/types"
